@@ -52,6 +52,26 @@ def edge_dom(body, src, dst, target):
     return edge_dominates(body, src, dst, target)
 
 
+STR_METHOD = re.compile(r"<impl str>::|alloc::string::String::|alloc::str::")
+
+
+def site_value_class(cg, body, op, sites, classify=None):
+    """an operand that derives from the result of one of the call terminators `sites`: "A" = it IS that result (Ok payload, through
+    `?` / deref / as_str / clone / fmt plumbing), "M" = a str / String method was applied on the way (trimmed, sliced, replaced ..),
+    "A?" = something else was (not analysed)"""
+    def cl(s, fld):
+        if any(s is x for x in sites):
+            return ("site", id(s))
+        return classify(s, fld) if classify else None
+    lv = value_leaves(cg, body, op, cl)
+    kinds = {x[0] for x in lv if x[0] != "fn"}
+    if "site" in kinds and not (kinds & {"call", "op", "prefix", "tail"}):
+        return "A"
+    if any(x[0] in ("prefix", "tail") or (x[0] == "call" and STR_METHOD.search(x[1])) for x in lv):
+        return "M"
+    return "A?"
+
+
 class LineLoop:
     """the line loop of the token expander and the classification of appended operands"""
 
@@ -119,7 +139,7 @@ class LineLoop:
         if isinstance(op, list):
             dl = deep_locals(self.tb, op)
             if any(s["d"][0] in dl for s in sites):
-                out.add("A")
+                out.add(site_value_class(self.cg, self.tb, op, sites))
         lv = self.leaves(op)
         core = {x for x in lv if x[0] not in ("fn",)}
         fmt_consts = set()
@@ -237,7 +257,10 @@ def run_splice(rep, cg, tname, gname, cycle_fns):
     loop = LineLoop(cg, tb, hb, ht, hsw, none_t, some_t)
     events, und = append_events(cg, tb, sl, acc, loop, sites, in_loop)
     blocks = lambda c: {b for b, cls, _ in events if c in cls}
-    A, B, W, P, U, N = (blocks(c) for c in "ABWPUN")
+    A, B, W, P, U, N, M = (blocks(c) for c in "ABWPUNM")
+    if blocks("A?"):
+        rep.note("undecided", "C20-R12: an append in %s derives from the recursive call's result through a call that is not analysed; it is taken as the expansion" % last(tname))
+        A |= blocks("A?")
     goal = {hb} | set(ok_exits)
     site_blocks = {b for b, t in tb.calls() if any(t is s for s in sites)}
     # edges taken exactly when the text that would be appended is empty
@@ -262,7 +285,8 @@ def run_splice(rep, cg, tname, gname, cycle_fns):
         miss_a = reach_cut(tb, start, avoid=A, cut=E_A) & goal
         rep.check(not miss_a, "C20-R12", "%s:include-branch-appends-the-expansion:%s" % (fn, tag),
                   "in %s a path from the successful recursive call of %s (line %d) back to the line loop / the Ok exit does not append the result of that call to the returned "
-                  "accumulator: the include line is not replaced by the contents of the file" % (fn, tag, s["l"]), "%s:%d" % (tb.file, s["l"]))
+                  "accumulator%s: the include line is not replaced by the contents of the file" % (fn, tag, s["l"], " (what is appended is a trimmed / sliced / rewritten "
+                  "copy of the expansion)" if M & after else ""), "%s:%d" % (tb.file, s["l"]))
         # (b) .. and the terminator of the include line, behind it
         if not (B & after) and (U & after):
             rep.note("undecided", "C20-R12: no append in the include branch of %s was recognised as the line terminator, and one append there is of an unrecognised form; "
@@ -309,3 +333,62 @@ def run_splice(rep, cg, tname, gname, cycle_fns):
     rep.check(True, "C20-R12", "%s:append-classes" % fn, "", where,
               sample={"expansion": sorted(A), "terminator": sorted(B), "whole_line": sorted(W), "line_body": sorted(P), "constant_newline": sorted(N), "unrecognised": sorted(U),
                       "newline_tests": len(loop.nl_tests)})
+
+
+def run_result_sites(rep, cg, cycle_fns, gname):
+    """C20-R12, sibling sites: EVERY call of a function on the expander's recursion cycle that returns the expanded text (Result<String, _>)
+    - the token expander's recursive call, the guarded function's calls of the token expander (in-loop flush, final flush, a flush
+    helper), the entry wrapper - hands the text on unchanged on every success path: the call is the function's own return value, or
+    every path from it to an Ok exit / back to the enclosing loop head passes an append of exactly that result to a String (an
+    append skipped exactly when the result is empty is accepted), or the Ok exit returns it."""
+    n = 0
+    verdict = {}          # key -> [ok?, message, where]: one obligation per (calling function, expander function) pair
+
+    def settle(key, ok, msg="", where=""):
+        v = verdict.setdefault(key, [True, "", ""])
+        if not ok and v[0]:
+            v[:] = [False, msg, where]
+    for fname in sorted(cg.bodies):
+        X = cg.bodies[fname]
+        sl = None
+        for b, t in X.calls():
+            cal = callee_of(t)
+            if cal not in cycle_fns or not cg.bodies[cal].locals[0].startswith("core::result::Result<alloc::string::String"):
+                continue
+            n += 1
+            key = "%s:expansion-result-handed-on:%s" % (last(fname) if "{closure" not in fname else fname.split("::")[-2] + "::closure", last(cal))
+            where = "%s:%d" % (X.file, t["l"])
+            if t["d"][0] == 0 and t["d"][1] == "":
+                settle(key, True)
+                continue
+            sl = sl or Slice(X)
+            ok_exits, _ = result_exits(X)
+            heads = {hb for hb, _ in calls_matching(X, r"Iterator>::next$") if X.dominates(hb, b) and hb in X.reachable_from([t["t"]] if "t" in t else [])}
+            strict, loose, modified = set(), set(), set()
+            for ab, at in calls_matching(X, APPEND_RX):
+                for op in at["args"][1:]:
+                    if isinstance(op, list) and t["d"][0] in deep_locals(X, op):
+                        c = site_value_class(cg, X, op, [t])
+                        (strict if c == "A" else modified if c == "M" else loose).add(ab)
+            goal = set(heads)
+            for e in ok_exits:
+                payload = [o for s in X.blocks[e]["s"] if s["d"][0] == 0 and s.get("rk") == "agg" for o in s["src"]]
+                if any(isinstance(o, list) and t["d"][0] in deep_locals(X, o) and site_value_class(cg, X, o, [t]) == "A" for o in payload):
+                    continue
+                goal.add(e)
+            E = set(emptiness_edges(X, lambda op: isinstance(op, list) and t["d"][0] in deep_locals(X, op)))
+            start = [t["t"]] if "t" in t else []
+            miss = reach_cut(X, start, avoid=strict | loose, cut=E) & goal
+            handed = [t2 for _, t2 in X.calls() if t2 is not t and callee_of(t2) in cg.bodies and any(isinstance(a, list) and t["d"][0] in deep_locals(X, a) for a in t2["args"])]
+            if miss and (handed or loose):
+                rep.note("undecided", "C20-R12: the result of %s in %s is handed to %s; whether it reaches the output unchanged is not decided" % (
+                    last(cal), last(fname), sorted({last(callee_of(x)) for x in handed}) or "a call that is not analysed"))
+                continue
+            if loose and not miss:
+                rep.note("undecided", "C20-R12: the result of %s in %s is appended through a call that is not analysed; it is taken as unchanged" % (last(cal), last(fname)))
+            settle(key, not miss,
+                      "in %s a path from the successful call of %s (line %d) to the Ok exit / back to the loop head does not append exactly the text that call returned to the output%s: "
+                      "the spliced text is not the expansion of the included text" % (last(fname), last(cal), t["l"], " (a trimmed / sliced / rewritten copy is appended)" if modified else ""), where)
+    for key in sorted(verdict):
+        rep.check(verdict[key][0], "C20-R12", key, verdict[key][1], verdict[key][2])
+    rep.floor("C20-R12", "(caller, expander function) pairs whose call returns the expanded text", len(verdict), 3)
